@@ -3,6 +3,8 @@ package main
 // C10, stream "c10d": cases that can only go wrong by NOT RETURNING, run in child processes under a deadline —
 //   manyblocks  MarchParallel vs March on a canvas with 3·NumCPU+3 blocks (a tiny shape in each block, sparse blocks are
 //               cheap): more blocks than fit in any queue sized by the worker count;
+//   ragged      meshes whose scanned / modified attribute is longer or shorter than the one AttributeLength() reports: every
+//               attribute Scan / Modify entry point, pools 2/3/5, one child per (dimension, direction);
 //   nested      race-free callbacks that call a Parallel entry point themselves (depth 2): outer default pool (NumCPU) and
 //               2·NumCPU over 4096 elements, inner pool 3 over 200 elements, against the nested sequential calls.
 // Children run once with the machine's CPUs and once pinned to two CPUs (`taskset -c 0,1`: runtime.NumCPU() = 2, so the
@@ -27,6 +29,7 @@ import (
 	"github.com/EliCDavis/polyform/modeling/marching"
 	"github.com/EliCDavis/vector/vector2"
 	"github.com/EliCDavis/vector/vector3"
+	"github.com/EliCDavis/vector/vector4"
 )
 
 func init() {
@@ -207,6 +210,70 @@ func runC10DChild(c *Ctx) {
 		c10ManyBlocks()
 	case 2:
 		c10Nested()
+	default:
+		if c.N >= 3000 {
+			c10Ragged((c.N-3000)/10, (c.N-3000)%10 == 1)
+		}
+	}
+}
+
+// ragged meshes (the setters accept them): the attribute scanned / modified is LONGER or SHORTER than the attribute that
+// Mesh.AttributeLength() reports (the first one found in float4, float3, float2, float1 order).  The parallel variants must
+// partition by the length of the attribute they work on, like the sequential loops do.
+func c10RaggedMesh(d int, longer bool) modeling.Mesh {
+	const first = 6
+	n := 4
+	if longer {
+		n = 9
+	}
+	idx := []int{0, 1, 2, 3}
+	m := modeling.NewMesh(modeling.PointTopology, idx)
+	vals := make([]float64, n*d)
+	for i := range vals {
+		vals[i] = float64(100 + i)
+	}
+	switch d {
+	case 3: // target float3; AttributeLength() sees the float4 attribute first
+		c4 := make([]vector4.Float64, first)
+		m = m.SetFloat4Attribute("first", c4)
+		v := make([]vector3.Float64, n)
+		for i := range v {
+			v[i] = vector3.New(vals[3*i], vals[3*i+1], vals[3*i+2])
+		}
+		m = m.SetFloat3Attribute(c10Attr, v)
+	case 2:
+		m = m.SetFloat3Attribute("first", make([]vector3.Float64, first))
+		v := make([]vector2.Float64, n)
+		for i := range v {
+			v[i] = vector2.New(vals[2*i], vals[2*i+1])
+		}
+		m = m.SetFloat2Attribute(c10Attr, v)
+	default:
+		m = m.SetFloat3Attribute("first", make([]vector3.Float64, first))
+		m = m.SetFloat1Attribute(c10Attr, vals)
+	}
+	return m
+}
+
+func c10RaggedNames(d int, longer bool) []string {
+	dir := map[bool]string{true: "longer", false: "shorter"}[longer]
+	var out []string
+	for _, pool := range []int{2, 3, 5} {
+		out = append(out, fmt.Sprintf("ragged/float%d/%s/scan/pool=%d", d, dir, pool), fmt.Sprintf("ragged/float%d/%s/modify/pool=%d", d, dir, pool))
+	}
+	return out
+}
+
+func c10Ragged(d int, longer bool) {
+	m := c10RaggedMesh(d, longer)
+	dir := map[bool]string{true: "longer", false: "shorter"}[longer]
+	for _, pool := range []int{2, 3, 5} {
+		seq, so := c10ScanAttr(m, d, pool, false)
+		par, po := c10ScanAttr(m, d, pool, true)
+		c10Report(fmt.Sprintf("ragged/float%d/%s/scan/pool=%d", d, dir, pool), seq.tokens(), par.tokens(), so, po)
+		sout, so2 := c10ModifyAttr(m, d, pool, false)
+		pout, po2 := c10ModifyAttr(m, d, pool, true)
+		c10Report(fmt.Sprintf("ragged/float%d/%s/modify/pool=%d", d, dir, pool), sout, pout, so2, po2)
 	}
 }
 
@@ -225,6 +292,16 @@ func runC10D(c *Ctx) {
 	children := []child{{1, true, []string{"manyblocks/"}}, {2, true, nestedCases}, {2, false, nestedCases}}
 	if c.Tier == "thorough" {
 		children = append(children, child{1, false, []string{"manyblocks/"}})
+	}
+	// ragged meshes: one child per (dimension, direction) — a panic inside a worker goroutine kills only that child
+	for d := 1; d <= 3; d++ {
+		for _, longer := range []bool{true, false} {
+			k := 3000 + d*10
+			if longer {
+				k++
+			}
+			children = append(children, child{k, false, c10RaggedNames(d, longer)})
+		}
 	}
 	for _, ch := range children {
 		args := []string{os.Args[0], "c10dchild", "-n", fmt.Sprint(ch.kind), "-out", dir}
@@ -289,6 +366,13 @@ func runC10D(c *Ctx) {
 				why := "crash"
 				if err != nil && ctx.Err() != nil {
 					why = "hang"
+				}
+				if i := strings.Index(string(out), "panic: "); i >= 0 && !strings.Contains(string(out), "fatal error: ") {
+					msg := string(out)[i:]
+					if j := strings.Index(msg, "\n"); j > 0 {
+						msg = msg[:j]
+					}
+					why = "crash:" + strings.ReplaceAll(msg, " ", "_")
 				}
 				if i := strings.Index(string(out), "fatal error: "); i >= 0 {
 					msg := string(out)[i:]
